@@ -86,7 +86,8 @@ def replay_genbase_v_numeric(obligation, model, meta):
             vals = np.broadcast_to(np.asarray(value, dtype=float), (len(list(idx)),))
             for i, v in zip(idx, vals):
                 status[i] = float(v)
-        stub = SimpleNamespace(n=2, gen=SimpleNamespace(v=['g1', 'g2']), u=SimpleNamespace(v=__import__('numpy').array([float(mu), 1.0])),
+        from contracts.packutil import Stub
+        stub = Stub(_cls=GENBase, n=2, gen=SimpleNamespace(v=['g1', 'g2']), u=SimpleNamespace(v=__import__('numpy').array([float(mu), 1.0])),
                                system=SimpleNamespace(groups={'StaticGen': SimpleNamespace(set=set_)}))
         GENBase.v_numeric(stub)
         want = {'g1': 0.0 if mu == 1 else float(su), 'g2': 0.0, 'other': 1.0}
@@ -106,7 +107,7 @@ def bounded_flat_run(pack, pid, tier='quick'):
     the bus voltages are those of the power flow, and a short run stays at that point"""
     from contracts.packutil import native_guard
     name = '%s/andes/routines/tds.py:TDS.init;TDS.run/bounded:initialisation-is-an-equilibrium-of-the-power-flow-solution' % pid
-    cases = ['kundur/kundur_full.xlsx', 'ieee14/ieee14_full.xlsx'] + (['ieee39/ieee39_full.xlsx', 'wecc/wecc_full.xlsx'] if tier == 'thorough' else [])
+    cases = ['kundur/kundur_full.xlsx', 'ieee14/ieee14_full.xlsx', 'ieee14/ieee14_fload.json'] + (['ieee39/ieee39_full.xlsx', 'wecc/wecc_full.xlsx'] if tier == 'thorough' else [])
 
     seen_known = []
 
